@@ -57,6 +57,32 @@ def run(ctx):
                             viol.append({"what": "key block length depends on the key length within the mask",
                                          "input": {"v": v, "alg": alg, "mask": mask, "layout": li}, "expected": "one length", "observed": sorted(ls)})
                     dist["%s:%s" % (v, alg)] = dist.get("%s:%s" % (v, alg), 0) + 1
+    # every algorithm id (all 62 alphanumeric characters): only T, D and A have a default mask; with the mask omitted every
+    # other id must be wrapped unmasked (through both entry points), with an explicit mask like any other
+    for v in "ABCD":
+        bs, ml = t.BS[v], t.MACLEN[v]
+        kbpk = rng.randbytes(t.KBPK_SIZES[v][-1])
+        for alg in t.ALNUM:
+            h = tr31.Header(v, "P0", alg, "E", "00", "N")
+            hl = len(str(h))
+            for mask in (None, 40):
+                for kl in (0, 5, 16, 24, 33, 64):
+                    key = bytes(kl)
+                    for entry in ("function", "method"):
+                        try:
+                            kb = tr31.wrap(kbpk, h, key, mask) if entry == "function" else tr31.KeyBlock(kbpk, h).wrap(key, mask)
+                        except Exception as e:  # noqa: BLE001
+                            viol.append({"what": "wrap failed", "input": {"v": v, "alg": alg, "mask": mask, "key_len": kl, "entry": entry},
+                                         "expected": "OK", "observed": repr(e)[:100]})
+                            continue
+                        evals += 1
+                        enc_bytes = (len(kb) - hl - 2 * ml) // 2
+                        m = max(eff_mask(alg, mask, kl), kl)
+                        if not (2 + m < enc_bytes and enc_bytes <= 2 + m + bs) or enc_bytes % bs:
+                            viol.append({"what": "encrypted section size outside (2+mask, 2+mask+block] (algorithm id sweep)",
+                                         "input": {"v": v, "alg": alg, "mask": mask, "key_len": kl, "entry": entry}, "expected": [2 + m + 1, 2 + m + bs],
+                                         "observed": enc_bytes})
+        dist["%s:all_algorithm_ids" % v] = len(t.ALNUM)
     # correspondence on a sample: the model, given the recovered tape, emits the same text (hence the same length)
     cases = []
     for kbpk, v, alg, blocks, key, mask, kb in lines:
